@@ -176,11 +176,11 @@ def gen_ops(rng, init, n, alphabet, interior_removal=True):
         elif kind == "stale":
             op.update(k=rng.randrange(8), act=rng.choice(["set", "add", "mul", "default"]), v=rng.choice([1, 2, -3, 0]))
         elif kind == "append":
-            op.update(delta=rng.choice([1, 1, 2, 0, -1, -3]), v=rng.choice([1, 2, 0, 4]))
+            op.update(delta=rng.choice([1, 1, 2, 0, -1, -3]), v=rng.choice([1, 2, 0, 4]), cpval=rng.random() < 0.25)
         elif kind == "extend":
             op.update(delta=rng.choice([1, 2, 0, -2]), n=rng.randint(0, 3))
         elif kind == "setitem":
-            op.update(pos=rng.randint(-2, 6), v=rng.choice([1, 0, 9, -4]))
+            op.update(pos=rng.randint(-2, 6), v=rng.choice([1, 0, 9, -4]), cpval=rng.random() < 0.25)
         elif kind == "setitem_cp":
             op.update(pos=rng.randint(-3, 6), cmode=rng.choice(["keep", "gap", "prev", "next", "below", "above", "same"]),
                       v=rng.choice([None, 1, 0, 8]))
@@ -190,6 +190,7 @@ def gen_ops(rng, init, n, alphabet, interior_removal=True):
             pass
         elif kind in ("fiber_ilshift", "clear"):
             op["leaf_only"] = not interior_removal
+            op["deeper"] = kind == "fiber_ilshift" and rng.random() < 0.3
         elif kind == "populate":
             op.update(stop=rng.choice([None, None, None, "break", "raise"]), at=rng.randint(0, 3))
         elif kind in ("iterref", "coiterref"):
@@ -199,7 +200,7 @@ def gen_ops(rng, init, n, alphabet, interior_removal=True):
         elif kind == "updateCoords":
             op.update(fn=rng.choice(["shift", "double", "reverse", "neg"]), depth=rng.randint(0, max(0, depth - 1)))
         elif kind == "updatePayloads":
-            op.update(fn=rng.choice(["inc", "box-inc", "zero", "same"]), depth=rng.randint(0, max(0, depth - 1)))
+            op.update(fn=rng.choice(["inc", "box-inc", "zero", "same", "elem-op"]), depth=rng.randint(0, max(0, depth - 1)))
         elif kind == "coiter_read":
             op.update(opr=rng.choice(["|", "^", "&", "-", "==", "+", "uncompress"]),
                       path2=[rng.randrange(8) for _ in range(len(path))])
@@ -349,6 +350,8 @@ def apply_op(ctx, op):
         mx = f.coords[-1] if f.coords else -1
         c = mx + op["delta"]
         v = op["v"] if leaf else gen.fiber_from_spec(ctx.subspec(op["seed"], lvl + 1), d)
+        if leaf and op.get("cpval"):
+            v = Payload(op["v"]) + CoordPayload(0, 1)      # a box produced by box-with-element arithmetic
         if ctx.tensor is not None and not leaf:
             return "skip"          # a raw sub-fiber appended into a tensor bypasses its ranks: not a public tensor mutation
         if f.coords and c <= mx:
@@ -388,7 +391,7 @@ def apply_op(ctx, op):
             except IndexError as e:
                 raise Rejected() from e
             raise RuntimeError("position assignment out of range was accepted")
-        f[pos] = op["v"]
+        f[pos] = (Payload(op["v"]) * CoordPayload(0, 2)) if op.get("cpval") else op["v"]
         return
     if kind == "setitem_cp":
         if not leaf:
@@ -450,6 +453,16 @@ def apply_op(ctx, op):
         else:
             f *= g
         return
+    if kind == "fiber_ilshift" and ctx.tensor is None and op.get("deeper"):
+        # assignment of a two-level tree onto an unowned fiber that already holds elements: the fiber takes
+        # over the source's shape of tree (its default becomes Fiber).  Ends the history: depth changed.
+        r = random.Random(op["seed"])
+        src = gen.rand_tree_spec(r, [3, 3], 0.8, 0.0, d)
+        if not src or not ctx.root.coords:
+            return "skip"
+        ctx.root <<= gen.fiber_from_spec(src, d)
+        ctx.hooks.quiescent("fiber_ilshift:deeper", ctx)
+        raise StopHistory()
     if kind == "fiber_ilshift":
         gs = ctx.subspec(op["seed"], lvl)
         if op.get("leaf_only") and not leaf:
@@ -514,6 +527,7 @@ def apply_op(ctx, op):
             return "skip"
         fn = op["fn"]
         fns = {"inc": lambda i, c, p: unbox(p) + 1, "box-inc": lambda i, c, p: Payload(unbox(p) + 1),
+               "elem-op": lambda i, c, p: p + CoordPayload(c, 1),
                "zero": lambda i, c, p: Payload(d), "same": lambda i, c, p: p}
         f.updatePayloads(fns[fn], depth=dd)
         return
